@@ -30,6 +30,7 @@ func init() {
 			{Name: "tokens_rand", N: constN(20000, 300000), Gen: c01GenTokensRand, Eval: c09Eval},
 			{Name: "models", N: constN(6000, 200000), Gen: genModelCase, Eval: c09EvalModel},
 			{Name: "bodyless", N: constN(6000, 150000), Gen: c09GenBodyless, Eval: c09Eval},
+			{Name: "references", N: constN(4000, 100000), Gen: c09GenReferences, Eval: c09Eval},
 		},
 		Floors: map[string]int64{"accepted": 3000},
 	})
@@ -407,5 +408,60 @@ func c09GenBodyless(r *xrand.Rand, idx int, tier string) *fw.Case {
 	}
 	c := oneDocCase([]byte(sb.String()), "", "bodies in every combination")
 	c.Meta = map[string]string{"class": "bodyless"}
+	return c
+}
+
+
+// c09GenReferences: every way of naming user types and enums (single, lists with and without blanks around the bar, or-rules,
+// type rules, enum rules, key references, allOf) in every host that keeps its own list of used types - Path, Query, Headers,
+// bodies, TYPE, JSON-RPC - so that "every used type or enum named anywhere exists" is exercised where the lists are built.
+func c09GenReferences(r *xrand.Rand, idx int, tier string) *fw.Case {
+	bars := []string{" | ", "|", " |", "| ", "  |  ", "\t|\t"}
+	bar := bars[r.Intn(len(bars))]
+	scal := []string{"@a", "@b", "@r", "@c"}
+	pick := func() string { return scal[r.Intn(len(scal))] }
+	ref := func() string {
+		switch r.Intn(9) {
+		case 0:
+			return pick()
+		case 1:
+			return pick() + bar + pick()
+		case 2:
+			return pick() + bar + pick() + bar + pick()
+		case 3:
+			return "1 // {or: [\"" + pick() + "\", \"integer\"]}"
+		case 4:
+			return "1 // {or: [{type: \"" + pick() + "\"}, {type: \"string\"}]}"
+		case 5:
+			return "\"x\" // {type: \"" + pick() + "\"}"
+		case 6:
+			return "\"v1\" // {enum: @e}"
+		case 7:
+			return "1 // {or: [{min: 1}, {type: \"string\"}]}"
+		default:
+			return pick() + bar + "@nosuch"
+		}
+	}
+	var sb strings.Builder
+	sb.WriteString("JSIGHT 0.3\nTYPE @a\n\"s\"\nTYPE @b\n1\nTYPE @c\n  true\nTYPE @r regex\n/[a-z]+/\nENUM @e\n[\"v1\", \"v2\"]\nTYPE @o\n{\"k\": 1}\n")
+	host := r.Intn(7)
+	switch host {
+	case 0:
+		sb.WriteString("GET /x/{id}\n  Path\n  {\n    \"id\": " + ref() + "\n  }\n  200 any\n")
+	case 1:
+		sb.WriteString("URL /x/{id}/{other}\n  Path\n  {\n    \"id\": " + ref() + ",\n    \"other\": " + ref() + "\n  }\n  GET\n    200 any\n")
+	case 2:
+		sb.WriteString("GET /q\n  Query\n  {\n    \"q\": " + ref() + "\n  }\n  200 any\n")
+	case 3:
+		sb.WriteString("POST /h\n  Request\n    Headers\n    {\n      \"h\": " + ref() + "\n    }\n    Body any\n  200\n    Headers\n    {\n      \"h\": " + ref() + "\n    }\n    Body any\n")
+	case 4:
+		sb.WriteString("TYPE @user\n{\n  \"p\": " + ref() + ",\n  @a : 1,\n  \"l\": [" + ref() + "]\n}\nGET /b\n  200 @user\n")
+	case 5:
+		sb.WriteString("GET /b\n  200\n  {\n    \"p\": " + ref() + "\n  }\nPOST /b\n  Request " + pick() + bar + pick() + "\n  200 [" + pick() + "]\n")
+	default:
+		sb.WriteString("URL /rpc\n  Protocol json-rpc-2.0\n  Method m\n    Params\n    {\n      \"p\": " + ref() + "\n    }\n    Result\n    { // {allOf: \"@o\"}\n      \"r\": " + ref() + "\n    }\n")
+	}
+	c := oneDocCase([]byte(sb.String()), "", "reference spellings")
+	c.Meta = map[string]string{"class": fmt.Sprintf("refs host%d", host)}
 	return c
 }
